@@ -104,7 +104,7 @@ ALLOWED_MUNCH_REASON = "both rules are silent trivia of the same state: the rema
 
 def rule_all_munch(ctx: Ctx, rid="C07.MUNCH", only=None):
     """Every deviation from maximal munch must be on the allow-list."""
-    for state in ctx.lexers:
+    for state in ctx.states:
         lc, pairs = munch_pairs(ctx, state)
         bad_j = {}
         for i, j, w in pairs:
@@ -162,7 +162,7 @@ def rule_wordsplit(ctx: Ctx, rid="C07.KEYWORD-WORDSPLIT"):
 
 def rule_no_dead(ctx: Ctx, rid="C07.NO-DEAD-TOKEN"):
     n = 0
-    for state, lc in ctx.lexers.items():
+    for state, lc in ctx.states.items():
         L = ctx.lexicon(state)
         sel = L.selectable()
         for i, r in enumerate(lc.rules):
@@ -181,7 +181,7 @@ def rule_no_dead(ctx: Ctx, rid="C07.NO-DEAD-TOKEN"):
             ctx.rep.check(good, rid, f"language/lexer.py:{state}.{tok}", f"remapped from {rule} on the exact text {lit!r}, which {rule} selects" if good
                           else f"token {tok} is remapped from {rule}[{lit!r}] but {lit!r} is not lexed as {rule}: the token can never be produced",
                           text=f"{tok} <- {rule}[{lit}]")
-    ctx.rep.floor("lexer rules", n, 37)
+    ctx.rep.floor("lexer rules", n, 30)
 
 
 def rule_tokens_have_rules(ctx: Ctx, rid="C07.TOKEN-RULES"):
@@ -189,6 +189,10 @@ def rule_tokens_have_rules(ctx: Ctx, rid="C07.TOKEN-RULES"):
     lc = ctx.main
     emit = {r.name for r in lc.rules if r.emits and r.in_tokens}
     emit |= {tok for tok, (rule, lit) in remapped_tokens(lc).items() if lc.rule(rule) is not None and lc.rule(rule).emits}
+    # an action may re-type its token (t.type = "OTHER")
+    for r in lc.rules:
+        if r.action and r.emits:
+            emit |= {t_.strip("'\"") for t_ in r.action.type_rewrites}
     for t in sorted(set(ctx.grammar.terminals) - {"error"}):
         used = any(t in p.syms for p in ctx.grammar.prods)
         if not used:
@@ -229,7 +233,7 @@ def all_paths_raise(fn: ast.FunctionDef):
 
 def rule_lex_error_raises(ctx: Ctx, rid="C06.LEX-ERROR-RAISES"):
     n = 0
-    for state, lc in ctx.lexers.items():
+    for state, lc in ctx.states.items():
         L = ctx.lexicon(state)
         fail = L.failing_input()
         n += 1
@@ -412,7 +416,7 @@ def rule_trivia_start(ctx: Ctx, rid="C08.TRIVIA-START"):
 
 def rule_trivia_silent(ctx: Ctx, rid="C08.TRIVIA-SILENT"):
     n = 0
-    for state, lc in ctx.lexers.items():
+    for state, lc in ctx.states.items():
         for r in lc.rules:
             if r.kind != "trivia":
                 continue
@@ -428,7 +432,7 @@ def rule_trivia_silent(ctx: Ctx, rid="C08.TRIVIA-SILENT"):
 
 
 def rule_trivia_munch(ctx: Ctx, rid="C08.TRIVIA-MUNCH"):
-    for state in ctx.lexers:
+    for state in ctx.states:
         lc, pairs = munch_pairs(ctx, state)
         for i, j, w in pairs:
             ri, rj = lc.rules[i], lc.rules[j]
@@ -489,7 +493,7 @@ def validate_engine(ctx: Ctx, n=20000):
     import re
     rnd = random.Random(int(os.environ.get("VERIF_SEED", "0") or 0))
     total = 0
-    for state, lc in ctx.lexers.items():
+    for state, lc in ctx.states.items():
         L = ctx.lexicon(state)
         master = re.compile("|".join(f"(?P<{r.name}>{r.pattern})" for r in lc.rules))
         names = [r.name for r in lc.rules]
